@@ -18,6 +18,9 @@ def make_cases(tier, seed):
             kw.update(preamble=gen.gen_preamble(r, nbps=r.choice([2, 3, 4])), weights=dict(setactive=12, wb=10))
         elif style == 2:
             kw.update(stats_p=0.8)
+        elif style == 4 and i % 16 == 4:
+            # a few records with strings longer than the decoder window and several encoder buffers
+            kw.update(huge=0.05, nops=r.choice([10, 30]), preamble=gen.gen_preamble(r, nbps=1, hints=(gen.ALL_QRH, gen.ALL_SIGH, 3, 3)))
         elif style == 3:
             kw.update(preamble=gen.gen_preamble(r, nbps=1, maxi=r.choice([0, 1, 2, 3])), nops=r.choice([10, 40]))
         elif style == 6 and tier != 'quick' and i % 64 == 6:
